@@ -129,7 +129,7 @@ CHECKS = {
     ref="DESIGN.md §5 C09"),
  "C12": dict(
     technique="Lean 4 proof (sublist / first-k / filter / per-metadata-limit / empty-is-error theorems about the selection routine) + a theorem over a wiring table regenerated from the source by an ast translator on every run + differential and end-to-end comparison across all interfaces and formats",
-    text="C12_select_sublist, _firstk, _filter, _limit, _empty_is_error, _nonempty, and C12_every_interface_forwards (decide over SedpackProps/C12Gen.lean, regenerated from dataset_iteration.py "
+    text="C12_select_sublist, _firstk, _filter, _limit, _empty_is_error, _nonempty, C12_select_combined / _combined_sub (C12Combined.lean: all three options given together, closed form and per-metadata-value content), and C12_every_interface_forwards (decide over SedpackProps/C12Gen.lean, regenerated from dataset_iteration.py "
          "before every build: a dropped option breaks the proof obligation directly). The model's selection is compared with the real shard_paths_dataset; every interface that accepts an option "
          "is run on fb/npz/tfrec datasets with contiguous and interleaved metadata groups (flat and nested values) and must yield exactly the selected shards' examples."
          " C12Src.lean re-checks on the statement order extracted from the current source that the selection is recomputed from shard_info_iterator on every call (nothing stored on the handle) and applies predicate, emptiness test, per-metadata limit in that order; the limits are also given as NumPy integer scalars.",
